@@ -169,6 +169,10 @@ DoIPow(s) == MulKeysOK(o[s], ItemsOf(o[s].ts)) /\ Step(s, IPowR(o[s], ItemsOf(o[
 DoClear(s) == TRUE /\ Step(s, ClearR(o[s]), <<"clear", s>>)
 DoRefresh(s) == TRUE /\ Step(s, RefreshR(o[s]), <<"refresh", s>>)
 DoCopy(s, d) == s # d /\ Step(d, CopyR(o[s]), <<"copy", s, d>>)
+\* set_mapping(m): the user renumbers the registered labels (here: reversed or rotated numbering); the counter of the next
+\* fresh integer is NOT touched, so labels met afterwards continue the numbering
+SetMapR(r, mode) == [r EXCEPT !.map = [x \in DOMAIN r.map |-> IF mode = "rev" THEN r.nl - 1 - r.map[x] ELSE (r.map[x] + 1) % r.nl]]
+DoSetMap(s, mode) == IsLabelled(o[s].kind) /\ o[s].nl >= 2 /\ Step(s, SetMapR(o[s], mode), <<"setmap", s, mode>>)
 \* construction from a plain dict (raw keys: repeated labels, zero values, keys that squash together): class(dict)
 NewR(kind, items) == FoldAugAdd(Fresh(kind), items, 1, 1)
 DoNew(s, lit) == ItemsOK(o[s].kind, lit) /\ Step(s, NewR(o[s].kind, lit), <<"new", s, lit>>)
@@ -195,9 +199,9 @@ DoInfo(s, d) == s # d /\ Step(d, CopyR(o[s]), <<"info", s, d>>)
 \* to_enumerated() / to_qubo(): observation only, the object is unchanged
 DoToEnum(s, red) == IsLabelled(o[s].kind) /\ UNCHANGED o /\ op' = <<"toenum", s, red>>
 
-AllOps == {"setitem", "augadd", "iadd", "isub", "update", "imul", "scalar", "ipow", "clear", "refresh", "copy", "addcons", "toenum", "new"}
+AllOps == {"setitem", "augadd", "iadd", "isub", "update", "imul", "scalar", "ipow", "clear", "refresh", "copy", "addcons", "toenum", "new", "setmap"}
 ArithOps == {"setitem", "augadd", "iadd", "isub", "imul", "scalar", "ipow", "bin", "binscalar", "neg", "pow", "div", "value", "mulraise", "refresh"}
-AliasOps == {"setitem", "augadd", "iadd", "imul", "scalar", "update", "clear", "refresh", "copy", "ctor", "info", "poke", "addcons", "bin"}
+AliasOps == {"setitem", "augadd", "iadd", "imul", "scalar", "update", "clear", "refresh", "copy", "ctor", "info", "poke", "addcons", "bin", "setmap"}
 BinNames == {"add", "sub", "mul"}
 On(x) == x \in Ops
 Next == \E s \in Slots :
@@ -212,6 +216,7 @@ Next == \E s \in Slots :
           \/ On("clear") /\ DoClear(s)
           \/ On("refresh") /\ DoRefresh(s)
           \/ On("copy") /\ \E d \in Slots : DoCopy(s, d)
+          \/ On("setmap") /\ \E mode \in {"rev", "rot"} : DoSetMap(s, mode)
           \/ On("new") /\ \E lit \in LitDicts : DoNew(s, lit)
           \/ On("addcons") /\ \E x \in Labels, n \in 0..5 : DoAddCons(s, x, n)
           \/ On("toenum") /\ \E red \in BOOLEAN : DoToEnum(s, red)
